@@ -26,8 +26,9 @@ Phases (one kind of task each):
   defaults every function called with each optional argument OMITTED (one at a time in every combination of the other options,
            and all together) and with the options passed POSITIONALLY in the documented order (every prefix): same observable
            behaviour (raise / storage class / where stored / values / whole blackboard) as the call passing the documented
-           default by keyword; the documented signatures are pinned in DOC_SIGNATURE and compared with inspect.signature();
-           dense=True <=> numpy storage of the returned attribute, as every docstring says
+           default by keyword; the documented signatures are pinned in DOC_SIGNATURE and compared with inspect.signature().
+           Which storage class a given value of `dense` selects is NOT judged (on the persistent path 8 functions ignore
+           `dense`: noted defect, the statement is about values) - only that omitting an option changes nothing
 """
 from __future__ import annotations
 import itertools, math
@@ -60,7 +61,7 @@ ASSUMPTIONS = [
     "float comparisons: relative 1e-9 (+1e-12 x length unit^dimension)",
     "mesh.edges / volume mesh.faces are taken from the library (construction is C02/C03's subject); their SET is checked against the face/cell list",
     "after an in-place deformation only explicit calls are judged, and a quantity that the library derives from other stored attributes (cotangent from 'angles', cotan_weights from 'cotan', angle_defects from 'angles', vertex_normals from face 'normals', sums and means from 'area' / 'volume') only after those were requested again; the new coordinates are read back from the mesh (transform.* itself is not C07's subject); default config.display_duplicate_attribute_warning only",
-    "documented defaults and parameter order = the signatures of the unchanged tree, pinned in DOC_SIGNATURE (where the prose of a docstring contradicts its own signature - dense of border_normals / triangle_aspect_ratio, name of face_circumcenter - the signature is taken); an omitted option means its documented default, options may be passed positionally in the documented order; dense=True means an ArrayAttribute is returned, dense=False an Attribute (every docstring: 'dense (numpy array) or not (dict)')",
+    "documented defaults and parameter order = the signatures of the unchanged tree, pinned in DOC_SIGNATURE (where the prose of a docstring contradicts its own signature - dense of border_normals / triangle_aspect_ratio, name of face_circumcenter - the signature is taken); an omitted option means its documented default (same raise / returned storage class / place where it is stored / values / blackboard as the explicit call), options may be passed positionally in the documented order; which storage class a value of `dense` selects is not judged",
     "units of length are powers of two (2^-20, 2^20) so that the scaled coordinates are exact; face_barycenter = mean of the corners (as documented), polygon area of a planar convex polygon = shoelace / vector area",
 ]
 BOUNDS = {
@@ -1809,7 +1810,7 @@ def run_convex(task, rep: Report):
 #     behaviour as by keyword.
 # The documented signatures are PINNED below (copied from the signatures of the unchanged tree; where the prose of a
 # docstring contradicts the signature - border_normals / triangle_aspect_ratio 'dense', face_circumcenter 'name' - the
-# signature is pinned and the contradiction reported as a documentation defect). They are NOT read from the library at run
+# signature wins). They are NOT read from the library at run
 # time; a separate guard compares them with inspect.signature(): a default that differs from the documented one IS the defect.
 DOC_SIGNATURE = {
     # function: (required positional parameters, ((optional parameter, documented default), ... in documented order))
@@ -1982,7 +1983,7 @@ def _trim(obs):
 
 
 def defaults_engine(M, rep, found, fname, fn, build, mesh_name, count=True):
-    """Runs the three clauses (omitted / positional / dense selects the storage class) for one function on one mesh.
+    """Runs the two clauses (options omitted / options positional) for one function on one mesh.
     `found` collects {(subcheck, callee): {...}} so that one defect gives one fingerprint over all meshes of the task."""
     opt = DOC_SIGNATURE[fname][1]
     order = [p for p, _ in opt]
@@ -2007,20 +2008,6 @@ def defaults_engine(M, rep, found, fname, fn, build, mesh_name, count=True):
                 for alt in _alt_values(fname, p, default[p]):
                     if _obs_diff(E(V), E(dict(V, **{p: alt}))) and count:
                         rep.flag(f"defaults_discriminated:{fname}.{p}")
-    # ---- dense=True <=> numpy storage (ArrayAttribute), dense=False <=> dict storage (Attribute), as every docstring says
-    if "dense" in default:
-        st = found.setdefault(("C07.defaults.dense_selects_storage", fname), {"ran": set(), "failed": {}})
-        for V in space:
-            ob = E(V)
-            if ob["outcome"] != "ok":
-                continue
-            lab = {p: V[p] for p in order if p in ("persistent", "dense")}
-            st["ran"].add(_okey(lab))
-            if count:
-                rep.evaluations += 1
-            if ob["return_type"] != ("ArrayAttribute" if V["dense"] else "Attribute"):
-                st["failed"].setdefault(_okey(lab), {"mesh": mesh_name, "call": _call_text(fname, V), "returned": ob["return_type"],
-                                                      "want": "ArrayAttribute" if V["dense"] else "Attribute"})
     # ---- each option omitted, one at a time, in every combination of the others; all omitted together
     st = found.setdefault(("C07.defaults.omitted", fname), {})
     for p in order:
@@ -2063,11 +2050,7 @@ def defaults_engine(M, rep, found, fname, fn, build, mesh_name, count=True):
 def defaults_flush(rep, found):
     for (sub, fname), st in sorted(found.items()):
         callee = "attributes." + fname
-        if sub.endswith("dense_selects_storage"):
-            if st["failed"]:
-                rep.violation(sub, callee, "mismatch:storage_class", _opt_class(set(st["failed"]), st["ran"]),
-                              st["failed"][sorted(st["failed"])[0]])
-        elif sub.endswith("omitted"):
+        if sub.endswith("omitted"):
             singles = sorted(p for p in st if p != "all")
             for p in singles:
                 d = dict(st[p]); f = d.pop("field")
